@@ -261,6 +261,13 @@ def layered_case(draw, for_package=False, max_vars=5, max_opts=4):
             ex["dg"] = "/bin/exe-dg"
     case["vars"] = variables
     case["opts"] = opts
+    if case.get("sibling") and variables and draw(st.booleans()):
+        # the sibling privately defines some of the names the probe uses (also names the probe does not define at all):
+        # a component's private variables are nobody else's layer
+        names = sorted(variables)
+        picked = draw(st.lists(st.sampled_from(names), min_size=1, max_size=min(3, len(names)), unique=True))
+        priv = {"s": "sibpriv-%s", "i": 4242, "f": 42.5, "b": "yes"}
+        case["sib_vars"] = {n: (priv[n[0]] % n if n[0] == "s" else priv.get(n[0], "sibpriv-%s" % n)) for n in picked}
     return case
 
 
@@ -298,6 +305,9 @@ def view(case, comp):
                     new[layer] = value
             v[section][key] = new
     # what the rendered helper component itself defines
+    if comp == "sib":
+        for name, value in (case.get("sib_vars") or {}).items():
+            v["vars"].setdefault(name, {})["c"] = value          # the sibling's private variables: its own layer only
     v["opts"].setdefault("command.executable", {})["c"] = "/bin/echo"
     v["opts"].setdefault("command.arguments", {})["c"] = own_args
     return v
@@ -364,6 +374,8 @@ def render(case):
     components = [probe]
     if case.get("sibling"):
         components.append({"name": "sib", "stage": s, "command": {"executable": "/bin/echo", "arguments": "sib"}})
+        if case.get("sib_vars"):
+            components[-1]["variables"] = dict(case["sib_vars"])
     if x is not None:
         components.append({"name": "filler", "stage": x, "command": {"executable": "/bin/echo", "arguments": "fil"}})
     components.sort(key=lambda c: (c["stage"], c["name"]))
